@@ -173,6 +173,35 @@ def work_dynamic(chunk, st):
                     fails = [(c, n, t) for c, n, lv, t in report.json_findings(outs[1]) if lv == 'fail']
                 if fails:
                     st.violation('peer-built-from-policy-shows-failure:after-weak-target', {'policy': pname, 'fmt': fmt, 'failures': fails[:5]})
+        # ... and after a weak twin whose audit dies of an environment error once its probes are done (the connection-rate check's
+        # connections are rejected with "no route to host", which the tool does not expect): the worker's clean-up must still happen
+        if p['server_policy']:
+            import errno
+            pre = 1 + len(set('rsa' if 'rsa' in k else k for k in weak_hk)) + (9 if gex else 0) * len([k for k in weak_kex if 'group-exchange' in k])
+            for fmt in ('text', 'json'):
+                weak = P.Server(host_keys=weak_hk, gex=P.GexPolicy([1024], P.STRICT) if gex else None, async_refuse=True, **dict(variants[0][1], kex=weak_kex))
+                nprobe = [None]
+
+                def beh(i, weak=weak):
+                    # the audit proper (handshake + probes) is served; everything after it is rejected
+                    return 'normal' if i < pre_conns[0] else errno.EHOSTUNREACH
+                # number of connections of the audit proper: measured on a twin with the rate check skipped
+                twin = P.Server(host_keys=weak_hk, gex=P.GexPolicy([1024], P.STRICT) if gex else None, **dict(variants[0][1], kex=weak_kex))
+                r0 = H.audit(twin, opts=['-n', '--skip-rate-test'])
+                pre_conns = [len(r0.world.conns)]
+                weak.conn_behaviour = beh
+                good = P.Server(host_keys=variants[0][2], gex=gex, **variants[0][1])
+                res, outs = H.audit_sequence([weak, good], opts=['-n'] + (['-j'] if fmt == 'json' else []))
+                st.execution(res.world, outcome=('policy-peer-after-crashed', res.status, fmt), root=('policy-peer-after-crashed', pname, fmt), nontrivial=('policy-peer-after-crashed', pname, fmt))
+                if outs is None or len(outs) != 2:
+                    st.violation('peer-built-from-policy:after-crashed-target:output-shape', {'policy': pname, 'fmt': fmt, 'stdout': res.stdout[-300:]})
+                    continue
+                if fmt == 'text':
+                    fails = [(c, n, t) for c, n, lv, t in report.TextReport(outs[1]).findings() if lv == 'fail']
+                else:
+                    fails = [(c, n, t) for c, n, lv, t in report.json_findings(outs[1]) if lv == 'fail']
+                if fails:
+                    st.violation('peer-built-from-policy-shows-failure:after-crashed-target', {'policy': pname, 'fmt': fmt, 'failures': fails[:5], 'first_target': str(outs[0])[:200]})
         st.sample({'policy': pname, 'audited_as': 'server' if p['server_policy'] else 'client'}, cap=6)
 
 
